@@ -86,7 +86,7 @@ func cmdSelftest(id string, verbose bool) int {
 			fmt.Printf("SELFTEST %s/%s: ok (harmless edit, all discharged)\n", id, m.Name)
 		case hit:
 			fmt.Printf("SELFTEST %s/%s: ok (caught by %s)\n", id, m.Name, m.Expect)
-		case len(unexpected) > 0 && m.Expect == "":
+		case len(unexpected) > 0 && m.Expect == "" && !strings.Contains(strings.Join(unexpected, " "), "does not compile"):
 			fmt.Printf("SELFTEST %s/%s: ok (caught: %v)\n", id, m.Name, unexpected)
 		default:
 			fmt.Printf("SELFTEST %s/%s: MISSED (expected %q, failing: %v)\n", id, m.Name, m.Expect, failedNames)
